@@ -254,9 +254,19 @@ func treeShapes(c *genCtx) [][]byte {
 		add(" " + s + " ")
 		add(s + ",")
 	}
+	// boundary code points as escapes in values and keys, alone and after plain text (also on the reused reader)
+	for _, cp := range []int{0, 1, 0x1f, 0x20, 0x22, 0x5c, 0x7e, 0x7f, 0x80, 0x81, 0xff, 0x100, 0x7ff, 0x800, 0xfff, 0x1000, 0xd7ff, 0xd800, 0xdbff,
+		0xdc00, 0xdfff, 0xe000, 0xfffd, 0xfffe, 0xffff} {
+		e := fmt.Sprintf(`\u%04x`, cp)
+		E := fmt.Sprintf(`\u%04X`, cp)
+		add(`"` + e + `"`)
+		add(`["` + e + `","a` + E + `","` + e + e + `"]`)
+		add(`{"` + e + `":1,"k` + E + `":"` + e + `z"}`)
+	}
 	// invalid UTF-8 in keys and values in front of / inside every kind of value, at several depths
 	for _, bad := range []string{"\xff", "\xc3", "\xe2\x82", "\xf0\x9f\x98", "\xed\xa0\x80", "\xc0\x80", "a\x80b"} {
-		for _, val := range []string{`"v"`, `1`, `null`, `true`, `[]`, `["a","b"]`, `{}`, `{"x":1}`, `[{"y":[1]}]`, `"` + bad + `"`} {
+		for _, val := range []string{`"v"`, `1`, `null`, `true`, `[]`, `["a","b"]`, `{}`, `{"x":1}`, `[{"y":[1]}]`, `"` + bad + `"`,
+			`["a` + bad + `"]`, `[1,["` + bad + `"]]`, `[{"` + bad + `":"` + bad + `"}]`, `{"in` + bad + `":["` + bad + `"]}`} {
 			add(`{"k` + bad + `":` + val + `}`)
 			add(`[{"outer":{"list` + bad + `":` + val + `}}]`)
 			add(`{"a":[1,{"` + bad + `":` + val + `,"z":"` + bad + `"}]}`)
